@@ -103,8 +103,17 @@ Fixpoint walk_f (reply_ack : bool) (msgs : list cmsg) (hs : list val) (results c
 Definition fsrv_spec (args : list val) : val :=
   match args with
   | [VN ra; VL hs; VL msgs; VL [VL results; VL calls; VL sent; VN leaked]] =>
+      (* C09: a descriptor lent to the handler is one that arrived with the messages, still open during the call *)
+      let msg_fds := flat_map (fun m => match m with VL [_; fds] => match val_NL fds with Some l => l | None => [] end | _ => [] end) msgs in
+      let lent := flat_map (fun c => match c with
+                                     | VL (VS _ :: rest) => match last rest (VN 0) with
+                                                            | VL ids => match val_NL (VL ids) with Some l => l | None => [9999] end
+                                                            | _ => []
+                                                            end
+                                     | _ => [] end) calls in
       if negb (forallb valid_fcall_b calls) then VS "false:C06"
       else if negb (leaked =? 0) then VS "false:C09"
+      else if negb (forallb (fun d => existsb (N.eqb d) msg_fds) lent) then VS "false:C09"
       else
         match all_some (map parse_case_msg msgs) with
         | Some ms =>
